@@ -183,6 +183,12 @@ func checkErrDrops(p *Prog, r *Report, fns []*ssa.Function, exceptions []errExce
 					return
 				}
 			}
+			// documented never to fail: the write methods of strings.Builder and
+			// bytes.Buffer always return a nil error
+			if strings.HasPrefix(calleeName, "strings.(*Builder).Write") || strings.HasPrefix(calleeName, "bytes.(*Buffer).Write") {
+				r.ok("R4.err-checked", key, p.pos(c.Pos()), "error of "+calleeName+" ignored: documented to be always nil")
+				return
+			}
 			for _, e := range exceptions {
 				if e.fn == funcName(f) && e.callee == calleeName {
 					r.ok("R4.err-checked", key, p.pos(c.Pos()), "error of "+calleeName+" ignored: "+e.why)
@@ -394,12 +400,70 @@ func mustPassEdgeFrom(start, target *ssa.BasicBlock, okCond func(cond ssa.Value,
 }
 
 func mustPassEdgeStart(start, target *ssa.BasicBlock, okCond func(cond ssa.Value, truth bool) bool, decide func(ifi *ssa.If) (bool, bool)) bool {
+	// A path remembers the outcome of the comparisons it has taken since the
+	// last back edge (an acyclic stretch executes every instruction at most
+	// once, so an identical comparison of the same SSA operands must come out
+	// the same way again): branches that contradict it are infeasible. This
+	// sees through `if idx < 0` after a search loop `for idx < 0 && …`, and
+	// through found-flags.
 	type node struct {
-		b    *ssa.BasicBlock
-		pred *ssa.BasicBlock
+		b     *ssa.BasicBlock
+		pred  *ssa.BasicBlock
+		known string
+	}
+	cmpKey := func(cond ssa.Value) (string, bool, bool) { // key, polarity flipped?, ok
+		bo, ok := cond.(*ssa.BinOp)
+		if !ok {
+			return "", false, false
+		}
+		switch bo.Op {
+		case token.EQL, token.LSS, token.GTR:
+			return fmt.Sprintf("%s|%s|%s", bo.Op, valKey(bo.X), valKey(bo.Y)), false, true
+		case token.NEQ:
+			return fmt.Sprintf("%s|%s|%s", token.EQL, valKey(bo.X), valKey(bo.Y)), true, true
+		case token.GEQ:
+			return fmt.Sprintf("%s|%s|%s", token.LSS, valKey(bo.X), valKey(bo.Y)), true, true
+		case token.LEQ:
+			return fmt.Sprintf("%s|%s|%s", token.GTR, valKey(bo.X), valKey(bo.Y)), true, true
+		}
+		return "", false, false
+	}
+	lookup := func(known, key string) (bool, bool) {
+		for _, part := range strings.Split(known, ";") {
+			if strings.HasPrefix(part, key+"=") {
+				return part[len(key)+1:] == "T", true
+			}
+		}
+		return false, false
+	}
+	extend := func(known, key string, val bool) string {
+		if _, had := lookup(known, key); had {
+			return known
+		}
+		v := "F"
+		if val {
+			v = "T"
+		}
+		parts := []string{}
+		if known != "" {
+			parts = strings.Split(known, ";")
+		}
+		parts = append(parts, key+"="+v)
+		sort.Strings(parts)
+		if len(parts) > 6 {
+			return known // keep the state space small
+		}
+		return strings.Join(parts, ";")
 	}
 	seen := map[node]bool{}
-	work := []node{{start, nil}}
+	work := []node{{start, nil, ""}}
+	steps := 0
+	push := func(from *ssa.BasicBlock, to *ssa.BasicBlock, known string) {
+		if to.Dominates(from) {
+			known = "" // back edge: values are recomputed
+		}
+		work = append(work, node{to, from, known})
+	}
 	for len(work) > 0 {
 		n := work[len(work)-1]
 		work = work[:len(work)-1]
@@ -407,6 +471,10 @@ func mustPassEdgeStart(start, target *ssa.BasicBlock, okCond func(cond ssa.Value
 			continue
 		}
 		seen[n] = true
+		steps++
+		if steps > 200000 {
+			return false
+		}
 		if n.b == target {
 			return false
 		}
@@ -414,7 +482,7 @@ func mustPassEdgeStart(start, target *ssa.BasicBlock, okCond func(cond ssa.Value
 		ifi, isIf := last.(*ssa.If)
 		if !isIf || n.b.Succs[0] == n.b.Succs[1] {
 			for _, s := range n.b.Succs {
-				work = append(work, node{s, n.b})
+				push(n.b, s, n.known)
 			}
 			continue
 		}
@@ -433,27 +501,45 @@ func mustPassEdgeStart(start, target *ssa.BasicBlock, okCond func(cond ssa.Value
 					idx = 0
 				}
 				if !okCondN(okCond, cond, val) {
-					work = append(work, node{n.b.Succs[idx], n.b})
+					push(n.b, n.b.Succs[idx], n.known)
 				}
 				continue
 			}
 		}
+		key, flipped, isCmp := cmpKey(cond)
 		for i, s := range n.b.Succs {
 			truth := i == 0
 			if cb, isConst := constBool(cond); isConst {
 				if cb != truth {
 					continue // infeasible
 				}
-				work = append(work, node{s, n.b})
+				push(n.b, s, n.known)
 				continue
+			}
+			known := n.known
+			if isCmp {
+				val := truth != flipped
+				if prev, had := lookup(known, key); had && prev != val {
+					continue // contradicts an outcome taken earlier on this path
+				}
+				known = extend(known, key, val)
 			}
 			if okCondN(okCond, cond, truth) {
 				continue
 			}
-			work = append(work, node{s, n.b})
+			push(n.b, s, known)
 		}
 	}
 	return true
+}
+
+// valKey identifies an operand: constants by spelling (distinct *ssa.Const objects may denote the
+// same value): their spelling is part of a comparison's key.
+func valKey(v ssa.Value) string {
+	if c, ok := v.(*ssa.Const); ok {
+		return "#" + c.String()
+	}
+	return fmt.Sprintf("%p", v)
 }
 
 // mustPassInstr: every feasible path from the entry of f to target executes
